@@ -239,6 +239,14 @@ func c02Protect(ks univ.KeySet, m ref.Msg, senderI bool, stream uint64) ([]byte,
 }
 
 func c02Config(c *engine.Ctx, name string, m ref.Msg, mi, si int, senderI bool) {
+	// the SPIs are random numbers: first octets 0xFF (looks like a NAT keepalive when cut to one octet), 0x00 (looks
+	// like a non-ESP marker) and an ordinary one rotate over the configurations
+	switch (mi + si) % 3 {
+	case 1:
+		m.H.ISPI |= 0xff << 56
+	case 2:
+		m.H.ISPI &= 0x0000ffffffffffff
+	}
 	ks := univ.MakeKeySet(si, 2, 2)
 	g1, err := c02Protect(ks, m, senderI, 1)
 	if err != nil {
